@@ -178,6 +178,69 @@ var damages = []damage{
 		}
 		return true
 	}},
+	{"required-text", func(r *hx.Rand, f map[string]any) bool {
+		// members the reader wants non-empty and Migrate13_3 rewrites
+		type tk struct{ typ, key string }
+		var cands []func()
+		for _, c := range []tk{{"add_contact_urn", "path"}, {"send_msg", "text"}, {"send_broadcast", "text"}, {"call_classifier", "input"},
+			{"call_webhook", "url"}, {"play_audio", "audio_url"}, {"say_msg", "text"}, {"send_email", "subject"}, {"send_email", "body"}} {
+			for _, a := range allActions(f, c.typ) {
+				a, key := a, c.key
+				cands = append(cands, func() { setMember(r, a, key, []any{"", nil, 5, "x", " ", "@webhook", []any{}}) })
+			}
+		}
+		for _, rt := range allRouters(f) {
+			rt := rt
+			cands = append(cands, func() { setMember(r, rt, "operand", []any{"", nil, 5, "x", "@input"}) })
+		}
+		if len(cands) == 0 {
+			return false
+		}
+		cands[r.Intn(len(cands))]()
+		return true
+	}},
+	{"attachments", func(r *hx.Rand, f map[string]any) bool {
+		as := allActions(f, "send_msg", "send_broadcast")
+		if len(as) == 0 {
+			return false
+		}
+		setMember(r, hx.Pick(r, as), "attachments", []any{nil, []any{}, "x", []any{"image/jpeg:http://x.io/a.jpg"}, []any{"image:http://x.io/@webhook"}, []any{"IMAGE:x"}, []any{"image/jpeg:"},
+			[]any{"http://x.io"}, []any{"text/x-vcard+foo.bar:u"}, []any{"a b/c:u"}, []any{"foo:u"}, []any{"geo:1,2"}, []any{"unavailable:u", "audio:u"}, []any{"image/:u"}, []any{"/png:u"},
+			[]any{"a/b/c:u"}, []any{"Key/x:u"}, []any{"image/jpeg:u", nil}, []any{1}, []any{""}, []any{"@(webhook):x"}, []any{":x"}, []any{"im-age/png:u"}, []any{"image/p_n.g+1-2:u:v"}})
+		return true
+	}},
+	{"references", func(r *hx.Rand, f map[string]any) bool {
+		refs := []any{[]any{}, nil, "x", []any{nil}, []any{map[string]any{}}, []any{map[string]any{"uuid": "1c06c884-39dd-4ce4-ad9f-9a01cbe6c000", "name": "G"}},
+			[]any{map[string]any{"name_match": "@contact.name"}}, []any{map[string]any{"uuid": "1c06c884-39dd-4ce4-ad9f-9a01cbe6c000", "name_match": "x"}},
+			[]any{map[string]any{"uuid": "", "name_match": ""}}, []any{map[string]any{"uuid": nil, "name_match": "x"}}, []any{map[string]any{"name_match": 5}}, []any{5},
+			[]any{map[string]any{"uuid": "1c06c884-39dd-4ce4-ad9f-9a01cbe6c000", "name_match": nil}}}
+		switch r.Intn(3) {
+		case 0:
+			as := allActions(f, "add_contact_groups", "remove_contact_groups", "send_broadcast", "start_session")
+			if len(as) == 0 {
+				return false
+			}
+			a := hx.Pick(r, as)
+			if str(a["type"]) == "remove_contact_groups" {
+				delete(a, "all_groups")
+			}
+			a["groups"] = hx.Pick(r, refs)
+		case 1:
+			as := allActions(f, "add_input_labels")
+			if len(as) == 0 {
+				return false
+			}
+			hx.Pick(r, as)["labels"] = hx.Pick(r, refs)
+		default:
+			as := allActions(f, "open_ticket")
+			if len(as) == 0 {
+				return false
+			}
+			setMember(r, hx.Pick(r, as), "assignee", []any{nil, "x", map[string]any{}, map[string]any{"email": "bob@nyaruka.com", "name": "Bob"}, map[string]any{"email_match": "@fields.x"},
+				map[string]any{"email": "bob@nyaruka.com", "email_match": "x"}, map[string]any{"email": "", "email_match": ""}, map[string]any{"email": 5}, []any{}})
+		}
+		return true
+	}},
 	{"header", func(r *hx.Rand, f map[string]any) bool {
 		switch r.Intn(3) {
 		case 0:
